@@ -34,7 +34,10 @@ def cli_executions(b, ch, ldns, rep):
             return "%d" % (r[0] + 578102)
         if kind == "jdn":
             return "%.1f" % (r[0] + 2299160.5)
-    infmt = {"ymd": "%F", "ymcw": "%Y-%m-%c-%w", "ywd": "%G-W%V-%u", "yd": "%Y-%j", "ldn": "ldn", "mdn": "mdn", "jdn": "jdn"}
+    # "epoch": the day as seconds since 1970 with a time of day (also just before midnight: before 1970 the borrow chain runs through
+    # every unit), given as arguments -- each second belongs to exactly one day
+    SODS = [0, 1, 86341, 86399, 43200, 3599, 86340]
+    infmt = {"ymd": "%F", "ymcw": "%Y-%m-%c-%w", "ywd": "%G-W%V-%u", "yd": "%Y-%j", "ldn": "ldn", "mdn": "mdn", "jdn": "jdn", "epoch": "%s"}
     execs = []
     nrun = 0
     for kind, ifmt in infmt.items():
@@ -42,12 +45,25 @@ def cli_executions(b, ch, ldns, rep):
             rows = [r for r in rows_all if r[0] < caldrv.TAIL_FIRST]     # known tail finding, judged in direction A
         else:
             rows = rows_all
-        inp = "".join(text(kind, r) + "\n" for r in rows)
+        if kind == "epoch":
+            rows = [r for r in rows_all if r[0] < caldrv.TAIL_FIRST and r[0] != 141427]
+            vals = ["%d" % ((r[0] - 141427) * 86400 + SODS[i % len(SODS)]) for i, r in enumerate(rows)]
+        inp = "".join(text(kind, r) + "\n" for r in rows) if kind != "epoch" else ""
         outs = {}
         for of in (CLI_FMT, "ldn", "mdn", "jdn", "%s"):
-            p = core.run([tool, "-i", ifmt, "-f", of], inp=inp, timeout=120)
-            nrun += 1
-            lines = p.stdout.splitlines()
+            if kind == "epoch":
+                if of != CLI_FMT:
+                    outs[of] = None         # day numbers of a date-time are printed with a fraction: the fields decide here
+                    continue
+                lines = []
+                for c0 in range(0, len(vals), 1500):
+                    p = core.run([tool, "-i", ifmt, "-f", of, "--"] + vals[c0:c0 + 1500], timeout=120)
+                    nrun += 1
+                    lines += p.stdout.splitlines()
+            else:
+                p = core.run([tool, "-i", ifmt, "-f", of], inp=inp, timeout=120)
+                nrun += 1
+                lines = p.stdout.splitlines()
             if len(lines) != len(rows):
                 rep.disagree("cli dconv -i %s -f %s: %d lines for %d inputs (rc=%d)" % (kind, of[:6], len(lines), len(rows), p.returncode),
                              {"stderr": p.stderr[:300], "first_input": inp[:40]})
